@@ -330,6 +330,44 @@ def guarded_index(sink, taint):
     return all(any(lit_ok(at, v) for (at, v) in c) for c in dnf)
 
 
+def guard_fingerprint(sink, taint):
+    """canonical text of the comparison literals that hold on EVERY path to the sink and mention a sub-expression of its operands.
+    Part of the review key: a reviewed reason usually leans on such guards, so weakening or removing one must re-open the site."""
+    body = sink.body
+    o = taint.origin(body)
+    subs = set()
+    for op in sink.ops:
+        for x in walk(op):
+            if isinstance(x, tuple) and x and x[0] in ("field", "call", "param", "len", "index", "upvar"):
+                subs.add(nosite(core(x)))
+
+    def mentions(at):
+        return any(nosite(core(x)) in subs for side in (at[2], at[3]) for x in walk(side) if isinstance(x, tuple) and x)
+    try:
+        dnf = conditions(body, sink.block, origin=o, relevant=lambda at: at[0] == "bin" and at[1] in ("Lt", "Le", "Gt", "Ge", "Eq", "Ne") and mentions(at), cap=2000)
+    except Exception:
+        dnf = None
+    if not dnf:
+        return ""
+
+    def canon(at, v):
+        op, a, b = at[1], canon_key(core(at[2]))[:120], canon_key(core(at[3]))[:120]
+        if isinstance(v, tuple):
+            return None
+        if op in ("Eq", "Ne"):
+            a, b = sorted((a, b))
+            return "%s%s%s" % (a, "==" if (op == "Eq") == (v == 1) else "!=", b)
+        table = {("Lt", 1): (a, "<", b), ("Lt", 0): (b, "<=", a), ("Le", 1): (a, "<=", b), ("Le", 0): (b, "<", a),
+                 ("Gt", 1): (b, "<", a), ("Gt", 0): (a, "<=", b), ("Ge", 1): (b, "<=", a), ("Ge", 0): (a, "<", b)}
+        t = table.get((op, v))
+        return "%s%s%s" % t if t else None
+    per = []
+    for c in dnf:
+        per.append({canon(at, v) for (at, v) in c} - {None})
+    common = set.intersection(*per) if per else set()
+    return ";".join(sorted(common))[:900]
+
+
 def guarded_from_bytes(sink, taint):
     """goblin ProgramHeader::from_bytes(bytes, count) panics unless bytes holds count whole headers: every path to the call must
     carry len(bytes) == count * SIZEOF (or >=), SIZEOF being the header size of the ELF class in the callee's path"""
